@@ -9,6 +9,8 @@ import AnyTLS.Props.C15
 #print axioms AnyTLS.C15.initial_request_roundtrip
 #print axioms AnyTLS.C15.udp_sites_sound
 #print axioms AnyTLS.C15.relay_socket_family
+#print axioms AnyTLS.C15.association_survives_unreachable
+#print axioms AnyTLS.C15.connected_socket_refuted
 #print axioms AnyTLS.C15.ipv4_only_bind_refuted
 #print axioms AnyTLS.C15.udp_to_stream_exact
 #print axioms AnyTLS.C15.udp_tunnel_exact
